@@ -48,7 +48,7 @@ BOUNDS = {
 SCOPE = ("Densities q_j are uninterpreted functions of the prime-space point, so 'the stored density equals the proposal re-evaluated at the sample' is decided as alignment of rows, columns and Jacobian terms for every density.")
 ASSUMPTIONS = [
     "the flow model returns, for sample_ith, arbitrary points and, for log_prob_ith / log_prob_all, a fixed function of the point (uninterpreted q_j)",
-    "the user model's likelihood and prior are functions of the unit-hypercube point (uninterpreted); its unit-hypercube prior is 0 inside the cube",
+    "the user model's likelihood and prior are functions of the unit-hypercube point (uninterpreted); its unit-hypercube prior is an uninterpreted finite function of the point inside the cube (log_prior_unit_hypercube may be overridden), -inf outside",
     "mixture weights are compared as the same floating-point quotients count/total that the code forms",
     "logit reparameterisation: decided on the regular region eps <= x <= 1-eps (inside the clip the stored density of a drawn sample differs from the re-evaluated one: known finding F-C03-eps-clip, reported separately)",
     "leakage / entropy diagnostics and plotting are stubs",
